@@ -958,6 +958,21 @@ func (env *Env) binop(op token.Token, a, b Val, ta, tb types.Type, pos token.Pos
 				}
 				return Val{T: Term{app("bv2nat", r), SInt}, GoT: a.GoT}
 			}
+			// both operands are numerals (a constant argument substituted for a parameter in a contract clause): exact
+			if x, err1 := strconv.ParseUint(a.T.S, 10, 62); err1 == nil {
+				if y, err2 := strconv.ParseUint(b.T.S, 10, 62); err2 == nil {
+					switch op {
+					case token.OR:
+						return Val{T: Term{fmt.Sprint(x | y), SInt}, GoT: a.GoT}
+					case token.AND:
+						return Val{T: Term{fmt.Sprint(x & y), SInt}, GoT: a.GoT}
+					case token.XOR:
+						return Val{T: Term{fmt.Sprint(x ^ y), SInt}, GoT: a.GoT}
+					case token.AND_NOT:
+						return Val{T: Term{fmt.Sprint(x &^ y), SInt}, GoT: a.GoT}
+					}
+				}
+			}
 			if op == token.OR {
 				return mk("int.or", SInt)
 			}
